@@ -211,7 +211,7 @@ def check_case(case):
                 argv = ["--data", sfile, "--thetas", tfile, "--distance-matrix", dfile, "--n-chunks", n_chunks, "--chunk-index", c, "--scorer", "SizeScorer", "--output", out, "--seed", 3]
                 if batch:
                     argv += ["--batch-plate-ids"] + list(batch)
-                run_cli("calculate_scores", argv)
+                run_cli("calculate_scores", argv, verbose=(case["order_seed"] + c) % 2 == 1)
                 cfiles.append(out)
             reloaded = Screen_load(sfile)
             allh = ChunkedScoresHolder.concat([ChunkedScoresHolder.load_h5(f) for f in cfiles])
